@@ -1,6 +1,7 @@
 import RModel.Props.C01
 import RModel.Props.C08
 import RModel.Props.C03
+import RModel.Props.C15
 import RModel.Lemmas.ExactPass
 /-
   Cross-model composition theorems: the rename PLANNER (`RenamePlan.planRenames`, rename.rs), APPLY (`Apply.applyPlan`,
@@ -231,6 +232,56 @@ example :
     (applyPlan t ⟨hunksOf [b!"foo_bar", b!"a.txt"] repl (Matcher.findMatches vs b!"x foo_bar y\nFooBar\n"), rs⟩).outcome = .ok ∧
     lookup (applyPlan t ⟨hunksOf [b!"foo_bar", b!"a.txt"] repl (Matcher.findMatches vs b!"x foo_bar y\nFooBar\n"), rs⟩).tree
       [b!"baz_qux", b!"a.txt"] = some (.file b!"x baz_qux y\nBazQux\n" 420) := by decide +kernel
+
+-- the PREVIEW chained with apply ------------------------------------------------------------------------------------------------
+
+/-- PREVIEW ∘ APPLY (C15 + C02).  C15's `diff_plus_line_eq_applied` speaks about `Edits.spec`, the left-to-right splice;
+    `C02ren.apply_exact_content` says that this splice is what the WHOLE apply model (pre-flight, backups, content phase,
+    rename phase) leaves on disk.  Chained: for a planned file `A ++ L ++ B` (A complete lines, L one line) whose edits are
+    the edits before the line, the hunks `hs` the diff shows for the line, and the edits after it, a successful apply puts
+    the file — at the place its renames take it to, mode kept — in a state whose line `nlCount A + 1` is EXACTLY the text on
+    the `+` side of the `@@ line n @@` block, and the `-` side (`lineBefore`) is line n of the file as it was. -/
+theorem preview_plus_line_is_line_after_apply (t : Tree) (p : Plan) (f : Path) (m : Nat)
+    (A L B : Bytes) (EA EB : List Edits.Edit) (hs : List Hunks.Hunk)
+    (h1 : C02ren.LastOnly p.rens) (h2 : C02ren.DistinctSources p.rens) (h3 : C02ren.TreeWF t) (h4 : C02ren.KindsOk t p.rens)
+    (hok : (applyPlan t p).outcome = .ok)
+    (hf : f ∈ sortedFiles p.hunks) (hl : lookup t f = some (.file (A ++ (L ++ B)) m))
+    (hedits : editsFor p.hunks f = EA ++ Hunks.shift A.length (hs.map Hunks.toEdit ++ Hunks.shift L.length EB))
+    (hcons : Edits.Consistent (A ++ (L ++ B)) 0 (editsFor p.hunks f))
+    (hAend : A = [] ∨ ∃ A0, A = A0 ++ [10])
+    (hLline : ∃ L0, L = L0 ++ [10] ∧ Matcher.nlCount L0 = 0)
+    (hnil : hs ≠ []) (hne : ∀ h ∈ hs, h.content ≠ [])
+    (hlb : ∀ h ∈ hs, h.lineBefore = L)
+    (hla : ∀ h ∈ hs, h.lineAfter = L.take h.byteOffset ++ h.replace ++ L.drop (h.byteOffset + h.content.length))
+    (hA : Edits.Consistent A 0 EA) (hL : Edits.Consistent L 0 (hs.map Hunks.toEdit))
+    (hnlA : ∀ e ∈ EA, Matcher.nlCount e.before = 0 ∧ Matcher.nlCount e.after = 0 ∧ e.start < e.stop)
+    (hnlL : ∀ h ∈ hs, Matcher.nlCount h.content = 0 ∧ Matcher.nlCount h.replace = 0) :
+    ∃ plus c', Hunks.diffAfterText hs = some plus ∧
+      lookup (applyPlan t p).tree (C02ren.finalPath p.rens f) = some (.file c' m) ∧
+      Hunks.lineOf (A ++ (L ++ B)) (Matcher.nlCount A + 1) = some L ∧
+      Hunks.lineOf c' (Matcher.nlCount A + 1) = some plus := by
+  obtain ⟨plus, hplus, hold, hnew⟩ :=
+    C15.diff_plus_line_eq_applied A L B EA EB hs hAend hLline hnil hne hlb hla hA hL hnlA hnlL
+  have happ := C02ren.apply_exact_content t p h1 h2 h3 h4 hok f _ m hf hl hcons
+  rw [hedits] at happ
+  exact ⟨plus, _, hplus, happ, hold, hnew⟩
+
+/-- non-vacuity: the second line of a three-line file inside a directory that is renamed; hunks on lines 1 and 2 -/
+example :
+    let A := b!"a foo\n"; let L := b!"é foo, foo;\r\n"; let B := b!"tail\n"
+    let f : Path := [b!"foo_dir", b!"a.txt"]
+    let t : Tree := [([b!"foo_dir"], .dir 493), (f, .file (A ++ (L ++ B)) 420)]
+    let mk := fun (c : Nat) =>
+      ({ line := 2, byteOffset := c, charOffset := 0, start := 0, stop := 0, content := b!"foo", replace := b!"quux",
+         lineBefore := L, lineAfter := L.take c ++ b!"quux" ++ L.drop (c + 3) } : Hunks.Hunk)
+    let EA : List Edits.Edit := [{ before := b!"foo", after := b!"quux", start := 2, stop := 5 }]
+    let es := EA ++ Hunks.shift A.length ([mk 3, mk 8].map Hunks.toEdit ++ Hunks.shift L.length [])
+    let p : Plan := ⟨es.map (fun e => { file := f, before := e.before, after := e.after, start := e.start, stop := e.stop }),
+                     [⟨[b!"foo_dir"], [b!"quux_dir"], .dir⟩]⟩
+    editsFor p.hunks f = es ∧ (applyPlan t p).outcome = .ok ∧
+    Hunks.diffAfterText [mk 3, mk 8] = some b!"é quux, quux;\r\n" ∧
+    lookup (applyPlan t p).tree [b!"quux_dir", b!"a.txt"] = some (.file b!"a quux\né quux, quux;\r\ntail\n" 420) ∧
+    Hunks.lineOf b!"a quux\né quux, quux;\r\ntail\n" 2 = some b!"é quux, quux;\r\n" := by decide +kernel
 
 -- the two hand-written models of `pattern.rs` are one function ----------------------------------------------------------------
 
